@@ -1,6 +1,6 @@
 """setup: validate every reference model against independent oracles (hashlib/hmac/zlib, published vectors)."""
 import importlib, sys
-MODS = ['refs.mdsha', 'refs.padding', 'refs.blake', 'refs.keccak', 'refs.ciphers', 'refs.stream', 'refs.skein']
+MODS = ['refs.mdsha', 'refs.padding', 'refs.blake', 'refs.keccak', 'refs.ciphers', 'refs.stream', 'refs.skein', 'refs.md6']
 
 
 def main():
